@@ -23,6 +23,11 @@ from pybrops.core.mat.DensePhasedTaxaVariantMatrix import DensePhasedTaxaVariant
 from pybrops.core.mat.DenseTaxaTraitMatrix import DenseTaxaTraitMatrix
 from pybrops.popgen.gmat.DenseGenotypeMatrix import DenseGenotypeMatrix
 from pybrops.popgen.gmat.DensePhasedGenotypeMatrix import DensePhasedGenotypeMatrix
+from pybrops.core.mat.DenseSquareTaxaMatrix import DenseSquareTaxaMatrix
+from pybrops.popgen.cmat.DenseMolecularCoancestryMatrix import DenseMolecularCoancestryMatrix
+from pybrops.breed.prot.gt.DenseUnphasedGenotyping import DenseUnphasedGenotyping
+from pybrops.breed.prot.gt.DenseMaskedUnphasedGenotyping import DenseMaskedUnphasedGenotyping
+from pybrops.breed.prot.gt.DenseMaskedPhasedGenotyping import DenseMaskedPhasedGenotyping
 
 ASSUMPTIONS = [
     "index semantics (which positions an int / slice / list / mask denotes) are numpy's and are taken from numpy applied to the id lists",
@@ -95,8 +100,9 @@ def label_array(label, elems, dup):
 # families
 # ------------------------------------------------------------------------------------------------------------------
 class Fam:
-    def __init__(self, name, cls, kinds, dtype, extra=None, fixed=None):
+    def __init__(self, name, cls, kinds, dtype, extra=None, fixed=None, square=False):
         self.name, self.cls, self.kinds, self.dtype = name, cls, kinds, dtype
+        self.square = square              # (taxa x taxa): every taxa operation acts on both axes
         self.extra = extra or {}
         self.fixed = fixed or {}          # unlabelled axis kind -> length
         self.labelled = [k for k in kinds if k in LABELS]
@@ -111,6 +117,8 @@ FAMILIES = {f.name: f for f in [
     Fam("DenseTaxaMatrix", DenseTaxaMatrix, ["taxa", "other"], "float64", fixed={"other": 2}),
     Fam("DenseVariantMatrix", DenseVariantMatrix, ["vrnt", "other"], "float64", fixed={"other": 2}),
     Fam("DenseTraitMatrix", DenseTraitMatrix, ["trait", "other"], "float64", fixed={"other": 2}),
+    Fam("DenseSquareTaxaMatrix", DenseSquareTaxaMatrix, ["taxa"], "float64", square=True),
+    Fam("DenseMolecularCoancestryMatrix", DenseMolecularCoancestryMatrix, ["taxa"], "float64", square=True),
 ]}
 BASE_FAMILIES = {"DenseTaxaMatrix", "DenseVariantMatrix", "DenseTraitMatrix"}
 
@@ -119,6 +127,13 @@ PRIME = {"taxa": 7, "vrnt": 3, "trait": 3, "phase": 5, "other": 5}
 
 def build_mat(fam, elems):
     """data cells are a function of the hidden ids of their coordinates"""
+    if fam.square:
+        # cell(i,j) = 1000*id_i + id_j when both entities come from the same original matrix (block), else the fill value
+        ids = numpy.array([el[0] for el in elems["taxa"]], dtype="float64")
+        blk = numpy.array([el[2] for el in elems["taxa"]], dtype="int64")
+        m = ids[:, None] * 1000.0 + ids[None, :]
+        m[blk[:, None] != blk[None, :]] = numpy.nan
+        return m
     shape = []
     parts = []
     for ax, k in enumerate(fam.kinds):
@@ -253,6 +268,7 @@ class Harness:
         self.dup = case["dup"]
         self.present = dict(case["present"])
         self.next_id = {k: 0 for k in self.fam.kinds}
+        self.block = 0
         self.elems = {}
         for k in self.fam.kinds:
             n = self.fam.fixed[k] if k in self.fam.fixed else case["sizes"][k]
@@ -263,7 +279,7 @@ class Harness:
     def fresh(self, k, none=()):
         eid = self.next_id[k]
         self.next_id[k] += 1
-        return (eid, frozenset(none))
+        return (eid, frozenset(none), self.block)
 
     def axis_of(self, k):
         return self.fam.kinds.index(k)
@@ -275,7 +291,7 @@ class Harness:
         if not ctx.check(x.mat.shape == exp.shape, "data.shape", lambda: "%s: shape %s expected %s" % (where, x.mat.shape, exp.shape)):
             return
         ctx.check(x.mat.dtype == exp.dtype, "data.dtype", lambda: "%s: %s" % (where, x.mat.dtype))
-        ctx.check(bool((x.mat == exp).all()), "data.cells_not_of_their_entities",
+        ctx.check(gens.same_array(x.mat, exp), "data.cells_not_of_their_entities",
                   lambda: "%s: data\n%s\nexpected (from the entities' ids)\n%s" % (where, x.mat, exp))
         for k in fam.labelled:
             for lb in LABELS[k]:
@@ -316,6 +332,7 @@ class Harness:
             req = [lb for lb in labs if lb not in NONE_FILLABLE and self.present[lb]]
             if req:
                 missing_required = req[stp["raw"][5] % len(req)]
+        self.block += 1          # entities of an operand form their own block (square families)
         new = [self.fresh(k, none | ({missing_required} if missing_required else set())) for _ in range(cnt)]
         el = dict(self.elems)
         el[k] = new
@@ -326,13 +343,13 @@ class Harness:
             pres[missing_required] = False
         if form.startswith("matrix"):
             el_plain = dict(el)
-            el_plain[k] = [(e[0], frozenset()) for e in new]
+            el_plain[k] = [(e[0], frozenset(), e[2]) for e in new]
             vals = make_matrix(fam, el_plain, pres, self.dup)
             return vals, {}, new, missing_required is not None
         kw = {}
         for lb in labs:
             if pres[lb]:
-                kw[lb] = label_array(lb, [(e[0], frozenset()) for e in new], self.dup)
+                kw[lb] = label_array(lb, [(e[0], frozenset(), e[2]) for e in new], self.dup)
         return build_mat(fam, el), kw, new, False
 
     # -------------------------------------------------------------------------------------------------------------
@@ -350,6 +367,13 @@ class Harness:
             op = "sort"
         ax = self.axis_of(k)
         axarg = ax if stp["generic"] == "pos" else ax - len(fam.kinds)
+        if fam.square:
+            ax = 0
+            axarg = [0, 1, -1, -2][(stp["raw"][4] + (0 if stp["generic"] == "pos" else 2)) % 4]
+            if op in ("insert", "incorp", "concat"):
+                ctx.label("square_insert_like")
+                if ctx.known("F-C03-c", True):
+                    return
         n = len(self.elems[k])
         x = self.x
         before = full_state(fam, x)
@@ -581,8 +605,12 @@ class Harness:
             ctx.check(gerr is None and not state_diff(full_state(fam, y), full_state(fam, z)), "generic_differs_from_specific", lambda: "%s axis=%d: %r" % (where, axarg, gerr))
             # read the realised permutation back from the data (ids are injective in the first cell along the axis)
             exp0 = build_mat(fam, self.elems)
-            src = numpy.moveaxis(exp0, ax, 0).reshape(n, -1)
-            dst = numpy.moveaxis(y.mat, ax, 0).reshape(y.mat.shape[ax], -1) if y.mat.ndim == exp0.ndim else None
+            if fam.square:
+                src = numpy.diagonal(exp0).reshape(n, 1)
+                dst = numpy.diagonal(y.mat).reshape(-1, 1) if y.mat.ndim == 2 and y.mat.shape[0] == y.mat.shape[1] else None
+            else:
+                src = numpy.moveaxis(exp0, ax, 0).reshape(n, -1)
+                dst = numpy.moveaxis(y.mat, ax, 0).reshape(y.mat.shape[ax], -1) if y.mat.ndim == exp0.ndim else None
             if dst is None or dst.shape != src.shape:
                 ctx.fail("data.shape", where)
                 return
@@ -635,8 +663,99 @@ def check_program(case, ctx):
                    and max(case["sizes"].values()) >= 3)
 
 
+# ------------------------------------------------------------------------------------------------------------------
+# genotyping protocols as single-step operations (phased -> phased/unphased, with and without mask)
+# ------------------------------------------------------------------------------------------------------------------
+@st.composite
+def genotyping_case(draw):
+    present = {}
+    for k in ("taxa", "vrnt"):
+        for lb in LABELS[k]:
+            present[lb] = draw(st.sampled_from([True, True, True, False]))
+    return {"family": "DensePhasedGenotypeMatrix",
+            "sizes": {"taxa": draw(st.integers(1, 5)), "vrnt": draw(st.integers(1, 7))},
+            "present": present, "dup": draw(st.booleans()), "steps": [],
+            "pre": draw(st.lists(st.sampled_from(["group_taxa", "sort_vrnt", "reorder_vrnt", "select_vrnt"]), max_size=2))
+                   + draw(st.sampled_from([["group_vrnt"], ["group_vrnt"], ["group_vrnt", "group_taxa"], []])),
+            "raw": [draw(RAW) for _ in range(6)],
+            "protocol": draw(st.sampled_from(["unphased", "masked_unphased", "masked_phased"])),
+            "invert": draw(st.booleans())}
+
+
+def check_genotyping(case, ctx):
+    h = Harness(case, ctx)
+    fam = h.fam
+    base = {"op": None, "kind": None, "generic": "pos", "idxform": "list", "raw": case["raw"], "k": 1, "valform": "matrix",
+            "keys": None, "concat_pos": 0, "deep": True}
+    for sno, pre in enumerate(case["pre"], 1):
+        op, k = pre.split("_")
+        stp = dict(base, op=op, kind=k)
+        h.run_step(sno, stp)
+    x = h.x
+    before = full_state(fam, x)
+    ctx.label("protocol:" + case["protocol"])
+    grouped_v = x.is_grouped_vrnt()
+    grouped_t = x.is_grouped_taxa()
+    ctx.label("input_grouped_vrnt", grouped_v)
+    ctx.label("input_grouped_taxa", grouped_t)
+    has_mask = bool(h.present["vrnt_mask"])
+    ctx.label("has_mask", has_mask)
+    if case["protocol"] == "unphased":
+        out = DenseUnphasedGenotyping().genotype(x)
+        keep = list(range(len(h.elems["vrnt"])))
+    else:
+        cls = DenseMaskedUnphasedGenotyping if case["protocol"] == "masked_unphased" else DenseMaskedPhasedGenotyping
+        ctx.label("invert", case["invert"])
+        if has_mask:
+            m = [bool(label_value("vrnt_mask", el[0], h.dup)) != bool(case["invert"]) for el in h.elems["vrnt"]]
+        else:
+            m = [True] * len(h.elems["vrnt"])
+        keep = [j for j, b in enumerate(m) if b]
+        if not keep:
+            # every variant masked out: an empty variant axis; only require a clean outcome
+            try:
+                cls(invert=case["invert"]).genotype(x)
+            except (ValueError, TypeError, IndexError):
+                pass
+            ctx.label("all_variants_masked")
+            return
+        out = cls(invert=case["invert"]).genotype(x)
+    ctx.check(not state_diff(before, full_state(fam, x)), "operand_modified", "genotyping protocol changed its input")
+    new_elems = dict(h.elems)
+    new_elems["vrnt"] = [h.elems["vrnt"][j] for j in keep]
+    ctx.nontrivial(len(keep) < len(h.elems["vrnt"]) and grouped_v)
+    ctx.label("variants_dropped_from_grouped_matrix", len(keep) < len(h.elems["vrnt"]) and grouped_v)
+    if case["protocol"] == "masked_phased":
+        ctx.check(type(out) is DensePhasedGenotypeMatrix, "genotyping.output_class", str(type(out)))
+        h.verify(out, new_elems, "masked phased genotyping")
+    else:
+        ctx.check(type(out) is DenseGenotypeMatrix, "genotyping.output_class", str(type(out)))
+        # unphased projection: dosage = sum over phases, labels as for the phased matrix
+        exp = build_mat(fam, new_elems).sum(0, dtype="int8")
+        ctx.check(out.mat.shape == exp.shape and gens.same_array(out.mat, exp), "data.cells_not_of_their_entities",
+                  lambda: "unphased projection: data %s expected %s" % (out.mat.tolist(), exp.tolist()))
+        ufam = FAMILIES["DenseGenotypeMatrix"]
+        for k in ufam.labelled:
+            for lb in LABELS[k]:
+                got = getattr(out, lb)
+                if not h.present[lb]:
+                    ctx.check(got is None, "label.appeared_from_nowhere", lb)
+                else:
+                    want = label_array(lb, new_elems[k], h.dup)
+                    ctx.check(got is not None and gens.same_array(got, want), "label.%s_detached" % lb,
+                              lambda: "%s=%s expected %s" % (lb, None if got is None else got.tolist(), want.tolist()))
+            if getattr(out, "is_grouped_" + k)():
+                lab, meta = GROUP[k]
+                errs = gens.partition_errors(getattr(out, lab), *[getattr(out, f) for f in meta])
+                ctx.label("grouped_state_checked")
+                ctx.check(not errs, "group.partition_untrue", lambda: "unphased output axis %s: %s; labels=%s" % (k, errs, getattr(out, lab).tolist()))
+    # grouping is carried over for taxa; for variants a grouped input stays grouped
+    ctx.check(out.is_grouped_taxa() == grouped_t, "genotyping.taxa_grouping_flag")
+
+
 _CONCRETE = ["DenseGenotypeMatrix", "DensePhasedGenotypeMatrix", "DenseTaxaVariantMatrix", "DensePhasedTaxaVariantMatrix", "DenseTaxaTraitMatrix"]
 _BASE = ["DenseTaxaMatrix", "DenseVariantMatrix", "DenseTraitMatrix"]
+_SQUARE = ["DenseSquareTaxaMatrix", "DenseMolecularCoancestryMatrix"]
 
 SUBCHECKS = [
     SubCheck("histories", check_program, program(_CONCRETE), quick=250, thorough=2500, shards_quick=8, shrink_s=30,
@@ -648,4 +767,14 @@ SUBCHECKS = [
              required_labels=("grouped_state_checked", "reorder_after_group", "sort_after_append", "absent_optional_array", "single_entity_axis", "dup_labels")),
     SubCheck("base_classes", check_program, program(_BASE), quick=150, thorough=1500, shards_quick=4, shrink_s=30,
              rule="same program generator on the base classes %s (2-D, one labelled axis)" % _BASE),
+    SubCheck("square", check_program, program(_SQUARE), quick=200, thorough=2000, shards_quick=4, shrink_s=30,
+             rule="same program generator on the square-taxa classes %s: every taxa operation acts on both axes; a cell is 1000*id_i+id_j "
+                  "when both entities come from the same original matrix and the class fill value (NaN) otherwise" % _SQUARE,
+             required_labels=("grouped_state_checked", "op:adjoin", "op:append")),
+    SubCheck("genotyping", check_genotyping, genotyping_case(), quick=200, thorough=2000, shards_quick=4, shrink_s=20,
+             rule="generated phased genotype matrix (optional arrays independently absent, duplicated labels), 0..3 preparatory group/sort/"
+                  "reorder/select steps, then one of the three genotyping protocols (mask, inverted mask, no mask): output data and labels are "
+                  "those of the retained entities, input unchanged, a reported grouping is a true partition; non-trivial = variants dropped "
+                  "from a matrix that was grouped along the variant axis",
+             required_labels=("variants_dropped_from_grouped_matrix", "grouped_state_checked")),
 ]
